@@ -750,3 +750,275 @@ func ruleValidationTablesNotRemadeInsideTheWalk(c *core.Ctx) {
 		c.Undecided(rule, "anchor/captured tables", 0, "no visitor callback of a validation pass captures a map")
 	}
 }
+
+func init() {
+	reg("C05", rulePositionalSlicesIndexedByTheirOwnLoop)
+	reg("C06", rulePositionalSlicesIndexedByTheirOwnLoop)
+}
+
+// ---------------------------------------------------------------------------------------------------------------
+// IX2: a slice made with `make([]T, len(S))` is positional in S: entry k describes S[k]. A store into it that stands
+// inside `for i := range S` uses the index i of that loop (or a local that is i) — not an index into another
+// collection (ProtocolChange.StepChanges is read by validation and by the C++ generator by the position of the step
+// in the NEW protocol; an index into the old protocol's step list puts a conversion into another step's slot).
+// ---------------------------------------------------------------------------------------------------------------
+func rulePositionalSlicesIndexedByTheirOwnLoop(c *core.Ctx) {
+	const rule = "IX2"
+	c.Rule(rule, "pkg/dsl: a store `X[k] = v` into a slice X made with make([]T, len(S)) that stands inside `for i := range S` has k == i (or a local defined as i)", 4)
+	n := 0
+	for _, d := range c.AllDecls() {
+		p := c.DeclPkg(d)
+		if p == nil || d.Body == nil || c.IsTestFile(d.Pos()) || !strings.HasSuffix(p.PkgPath, "/pkg/dsl") {
+			continue
+		}
+		info := p.TypesInfo
+		// positional slices: name (local identifier object, or field name) -> text of S
+		type posSlice struct {
+			obj   types.Object
+			field string
+			of    string
+		}
+		var slices []posSlice
+		lenOf := func(e ast.Expr) string {
+			ce, ok := e.(*ast.CallExpr)
+			if !ok || len(ce.Args) != 2 {
+				return ""
+			}
+			if id, ok := ce.Fun.(*ast.Ident); !ok || id.Name != "make" {
+				return ""
+			}
+			if _, ok := info.TypeOf(ce.Args[0]).Underlying().(*types.Slice); !ok {
+				return ""
+			}
+			l, ok := ce.Args[1].(*ast.CallExpr)
+			if !ok || len(l.Args) != 1 {
+				return ""
+			}
+			if id, ok := l.Fun.(*ast.Ident); !ok || id.Name != "len" {
+				return ""
+			}
+			return types.ExprString(l.Args[0])
+		}
+		ast.Inspect(d.Body, func(m ast.Node) bool {
+			switch x := m.(type) {
+			case *ast.AssignStmt:
+				if len(x.Lhs) == len(x.Rhs) {
+					for i := range x.Lhs {
+						if s := lenOf(x.Rhs[i]); s != "" {
+							if id, ok := x.Lhs[i].(*ast.Ident); ok {
+								slices = append(slices, posSlice{obj: info.ObjectOf(id), of: s})
+							} else if se, ok := x.Lhs[i].(*ast.SelectorExpr); ok {
+								slices = append(slices, posSlice{field: se.Sel.Name, of: s})
+							}
+						}
+					}
+				}
+			case *ast.KeyValueExpr:
+				if id, ok := x.Key.(*ast.Ident); ok {
+					if s := lenOf(x.Value); s != "" {
+						slices = append(slices, posSlice{field: id.Name, of: s})
+					}
+				}
+			}
+			return true
+		})
+		if len(slices) == 0 {
+			continue
+		}
+		var loops []*ast.RangeStmt
+		var walk func(node ast.Node)
+		walk = func(node ast.Node) {
+			ast.Inspect(node, func(m ast.Node) bool {
+				switch x := m.(type) {
+				case *ast.RangeStmt:
+					loops = append(loops, x)
+					walk(x.Body)
+					loops = loops[:len(loops)-1]
+					return false
+				case *ast.AssignStmt:
+					if x.Tok != token.ASSIGN {
+						return true
+					}
+					for _, l := range x.Lhs {
+						ie, ok := l.(*ast.IndexExpr)
+						if !ok {
+							continue
+						}
+						var ps *posSlice
+						for i := range slices {
+							s := &slices[i]
+							if id, ok := ie.X.(*ast.Ident); ok && s.obj != nil && info.ObjectOf(id) == s.obj {
+								ps = s
+							}
+							if se, ok := ie.X.(*ast.SelectorExpr); ok && s.field != "" && se.Sel.Name == s.field {
+								ps = s
+							}
+						}
+						if ps == nil {
+							continue
+						}
+						// the innermost enclosing loop over S
+						var loop *ast.RangeStmt
+						for k := len(loops) - 1; k >= 0; k-- {
+							if types.ExprString(loops[k].X) == ps.of {
+								loop = loops[k]
+								break
+							}
+						}
+						if loop == nil || loop.Key == nil {
+							continue
+						}
+						n++
+						key := identObj(info, loop.Key)
+						good := false
+						if id, ok := ast.Unparen(ie.Index).(*ast.Ident); ok {
+							o := info.ObjectOf(id)
+							if o == key {
+								good = true
+							} else {
+								// a local defined once as the loop index
+								ast.Inspect(loop.Body, func(q ast.Node) bool {
+									if as, ok := q.(*ast.AssignStmt); ok && as.Tok == token.DEFINE && len(as.Lhs) == 1 && len(as.Rhs) == 1 {
+										if l0, ok := as.Lhs[0].(*ast.Ident); ok && info.ObjectOf(l0) == o {
+											if r0, ok := ast.Unparen(as.Rhs[0]).(*ast.Ident); ok && info.ObjectOf(r0) == key {
+												good = true
+											}
+										}
+									}
+									return true
+								})
+							}
+						}
+						c.Check(good, rule, fmt.Sprintf("%s/%s[…] inside range %s", c.FuncName(d), types.ExprString(ie.X), ps.of), x.Pos(), "indexed by the loop's own index",
+							fmt.Sprintf("`%s` was made with len(%s) and is stored into inside `range %s`, but at index `%s`, not at the loop's index: the entry lands in the slot of another element of %s whenever the two numberings differ (a step added in front of a changed step: the added step's slot is overwritten and the changed step's conversion is missing)", types.ExprString(ie.X), ps.of, ps.of, types.ExprString(ie.Index), ps.of))
+					}
+				}
+				return true
+			})
+		}
+		walk(d.Body)
+	}
+	if n == 0 {
+		c.Undecided(rule, "anchor/positional slices", 0, "none found")
+	}
+}
+
+func init() {
+	reg("C06", ruleSkippingTheNullCaseNeedsANullCase)
+	reg("C05", ruleSkippingTheNullCaseNeedsANullCase)
+}
+
+// ---------------------------------------------------------------------------------------------------------------
+// NC1: `X.Cases[1:]` means "the cases of X without the leading null case". It stands only where X is known to
+// have one: under `X.Cases.HasNullOption()` or `X.Cases.IsOptional()` (as a conjunct of an enclosing condition, or
+// established by an earlier `if !… { leave }`). Without the fact the first real case of a union without null is
+// skipped and the indexes computed from the loop (`i + 1`) are off by one.
+// ---------------------------------------------------------------------------------------------------------------
+func ruleSkippingTheNullCaseNeedsANullCase(c *core.Ctx) {
+	const rule = "NC1"
+	c.Rule(rule, "pkg/dsl, internal/*: every `X.Cases[1:]` is dominated by the fact X.Cases.HasNullOption() or X.Cases.IsOptional() (conjunct of an enclosing condition or an earlier leaving test)", 1)
+	n := 0
+	for _, d := range c.AllDecls() {
+		p := c.DeclPkg(d)
+		if p == nil || d.Body == nil || c.IsTestFile(d.Pos()) {
+			continue
+		}
+		var stack []ast.Node
+		ast.Inspect(d.Body, func(m ast.Node) bool {
+			if m == nil {
+				stack = stack[:len(stack)-1]
+				return true
+			}
+			stack = append(stack, m)
+			se, ok := m.(*ast.SliceExpr)
+			if !ok || se.Low == nil || se.High != nil || types.ExprString(se.Low) != "1" {
+				return true
+			}
+			sel, ok := se.X.(*ast.SelectorExpr)
+			if !ok || sel.Sel.Name != "Cases" {
+				return true
+			}
+			subject := types.ExprString(se.X)
+			n++
+			facts := map[string]bool{}
+			var pos func(e ast.Expr)
+			var neg func(e ast.Expr)
+			pos = func(e ast.Expr) {
+				switch x := ast.Unparen(e).(type) {
+				case *ast.BinaryExpr:
+					if x.Op == token.LAND {
+						pos(x.X)
+						pos(x.Y)
+					}
+				case *ast.UnaryExpr:
+					if x.Op == token.NOT {
+						neg(x.X)
+					}
+				case *ast.CallExpr:
+					facts[types.ExprString(x)] = true
+				}
+			}
+			neg = func(e ast.Expr) {
+				switch x := ast.Unparen(e).(type) {
+				case *ast.BinaryExpr:
+					if x.Op == token.LOR {
+						neg(x.X)
+						neg(x.Y)
+					}
+				case *ast.UnaryExpr:
+					if x.Op == token.NOT {
+						pos(x.X)
+					}
+				}
+			}
+			for i := len(stack) - 2; i >= 0; i-- {
+				child := stack[i+1]
+				switch a := stack[i].(type) {
+				case *ast.IfStmt:
+					if child == ast.Node(a.Body) {
+						pos(a.Cond)
+					} else if a.Else != nil && child == ast.Node(a.Else) {
+						neg(a.Cond)
+					}
+				case *ast.BlockStmt:
+					for _, s := range a.List {
+						if ast.Node(s) == child {
+							break
+						}
+						if is, ok := s.(*ast.IfStmt); ok && is.Else == nil && terminatesBlock(is.Body) {
+							neg(is.Cond)
+						}
+					}
+				case *ast.FuncLit:
+					i = -1
+				}
+			}
+			ok2 := facts[subject+".HasNullOption()"] || facts[subject+".IsOptional()"]
+			c.Check(ok2, rule, fmt.Sprintf("%s/%s[1:]", c.FuncName(d), subject), se.Pos(), "a null case is known to lead the list",
+				"`"+subject+"[1:]` skips the first case, but nothing on the path says that "+subject+" starts with the null case: for a union without null the first real case is never looked at and the case index computed from the loop is off by one (an optional T is then accepted as compatible with a union that has no null case)")
+			return true
+		})
+	}
+	if n == 0 {
+		c.Undecided(rule, "anchor/Cases[1:]", 0, "none found")
+	}
+}
+
+func terminatesBlock(b *ast.BlockStmt) bool {
+	if b == nil || len(b.List) == 0 {
+		return false
+	}
+	switch s := b.List[len(b.List)-1].(type) {
+	case *ast.ReturnStmt:
+		return true
+	case *ast.BranchStmt:
+		return s.Tok == token.CONTINUE || s.Tok == token.BREAK
+	case *ast.ExprStmt:
+		if ce, ok := s.X.(*ast.CallExpr); ok {
+			if id, ok := ce.Fun.(*ast.Ident); ok && id.Name == "panic" {
+				return true
+			}
+		}
+	}
+	return false
+}
